@@ -226,6 +226,30 @@ func bornOf(c *core.Ctx, fn *ssa.Function, v ssa.Value, at *ssa.BasicBlock, sum 
 				return
 			}
 			callee := core.StaticCallee(call)
+			// a call through a local function value that is one of several module functions (`pack := packResp; if tcp
+			// { pack = packRespTCP }`): every candidate must have the summary
+			if callee == nil && x.Index == 0 {
+				if cands := dynCallees(call); len(cands) > 0 {
+					all := true
+					for _, f := range cands {
+						if sum[f] == nil || !sum[f].born {
+							all = false
+						}
+					}
+					if all {
+						for _, f := range cands {
+							res.why = append(res.why, core.FuncName(f)+"()#0")
+							if !sum[f].neverNil {
+								if sum[f].nilOnErr && at != nil && errOfCallNilAt(x, at) {
+									continue
+								}
+								res.maybeNil = true
+							}
+						}
+						return
+					}
+				}
+			}
 			if x.Index == 0 && callee != nil && sum[callee] != nil && sum[callee].born {
 				res.why = append(res.why, core.FuncName(callee)+"()#0")
 				if !sum[callee].neverNil {
@@ -633,4 +657,25 @@ func recvStructField(c *core.Ctx, fa *ssa.FieldAddr) (vals []ssa.Value, fns []*s
 		}
 	}
 	return vals, fns, len(vals) > 0
+}
+
+
+// dynCallees: the module functions a call through a function value may reach, when every origin of the value is a
+// function (no closures with captured state, no unknown values).
+func dynCallees(call *ssa.Call) []*ssa.Function {
+	if call.Call.IsInvoke() {
+		return nil
+	}
+	if _, isFn := call.Call.Value.(*ssa.Function); isFn {
+		return nil
+	}
+	var out []*ssa.Function
+	for _, o := range core.Origins(call.Call.Value, core.OriginOpts{}) {
+		f, ok := o.(*ssa.Function)
+		if !ok || f.Blocks == nil {
+			return nil
+		}
+		out = append(out, f)
+	}
+	return out
 }
